@@ -184,6 +184,10 @@ void check_factor(const Dense &Md, const std::vector<int> &perm_r, const std::ve
     Dense P(n);
     for (int i = 0; i < n; ++i) for (int j = 0; j < n; ++j) P.at(perm_r[i], perm_c[j]) = Md.at(i, j);
     ld maxM = 0, maxW = 0;
+    // absolute slack for gradual underflow (the gamma model assumes none): eta = smallest subnormal of the working precision
+    ld eta = prec_is_single(prec) ? 0x1p-149L : 0x1p-1074L, maxL = 1;
+    for (auto &v : L.a) maxL = std::max(maxL, absl_(v));
+    ld uslack = 4 * (ld)(n + 1) * eta * maxL;
     // (a)
     std::vector<ld> aL((size_t)n * n), aU((size_t)n * n);
     for (size_t k = 0; k < aL.size(); ++k) { aL[k] = absl_(L.a[k]); aU[k] = absl_(U.a[k]); }
@@ -192,7 +196,7 @@ void check_factor(const Dense &Md, const std::vector<int> &perm_r, const std::ve
             cld r = 0; ld w = 0;
             int kmax = std::min(i, j);
             for (int k = 0; k <= kmax; ++k) { r += L.at(i, k) * U.at(k, j); w += aL[(size_t)i * n + k] * aU[(size_t)k * n + j]; }
-            ld diff = absl_(P.at(i, j) - r), bound = g * w * (1 + delta);
+            ld diff = absl_(P.at(i, j) - r), bound = g * w * (1 + delta) + uslack;
             maxM = std::max(maxM, absl_(P.at(i, j))); maxW = std::max(maxW, w);
             if (w > 0) out.max_ratio_a = std::max(out.max_ratio_a, diff / (g * w));
             if (!(diff <= bound)) {
@@ -247,6 +251,9 @@ void check_solve(const Dense &Aeff, bool etrans, const std::vector<int> &perm_r,
         W[(size_t)i * n + j] = w;
     }
     if (max_ratio) *max_ratio = 0;
+    ld eta = prec_is_single(prec) ? 0x1p-149L : 0x1p-1074L, maxLU = 1;
+    for (auto &v : L.a) maxLU = std::max(maxLU, absl_(v));
+    for (auto &v : U.a) maxLU = std::max(maxLU, absl_(v));
     for (int c = 0; c < nrhs; ++c) {
         const cld *x = X.data() + (size_t)c * n, *b = B.data() + (size_t)c * n;
         for (int i = 0; i < n; ++i) {
@@ -260,7 +267,7 @@ void check_solve(const Dense &Aeff, bool etrans, const std::vector<int> &perm_r,
                 e = etrans ? W[(size_t)perm_r[j] * n + perm_c[i]] : W[(size_t)perm_r[i] * n + perm_c[j]];
                 r -= a * x[j]; bd += e * absl_(x[j]);
             }
-            ld res = absl_(r), bound = g * bd * (1 + delta);
+            ld res = absl_(r), bound = g * bd * (1 + delta) + 12 * (ld)(n + 1) * eta * maxLU * maxLU;
             if (max_ratio && bd > 0) *max_ratio = std::max(*max_ratio, res / (g * bd));
             if (!(res <= bound)) { if (errs.size() < 3) errs.push_back(fmt("|B-AX|(%d,%d)=%.3Le > gamma_3n E|X|=%.3Le", i, c, res, bound)); }
         }
